@@ -196,10 +196,28 @@ def _has_name_test(fn):
 _FACTS = None
 
 
+def _facts_cache_path():
+    try:
+        from vlib.common import BUILD
+
+        return os.path.join(BUILD, "C22", "facts.json")
+    except Exception:
+        return None
+
+
 def facts(_=None):
     """runs in the impl interpreter"""
     global _FACTS
     if _FACTS is not None:
+        return _FACTS
+    cached = _facts_cache_path()
+    if _ != "fresh" and cached and os.path.exists(cached):
+        # written by translate() of THIS run (the build directory is recreated on every run)
+        import json
+
+        _import_all()
+        with open(cached) as fh:
+            _FACTS = json.load(fh)
         return _FACTS
     _import_all()
     import sqlalchemy
@@ -254,7 +272,13 @@ def facts(_=None):
     # operators
     opnames = set(o.__name__ for o in compiler.OPERATORS) | set(default_comparator.operator_lookup)
     opnames |= set(o.__name__ for o in operators._PRECEDENCE)
-    opnames = sorted(opnames)
+    import operator as _pyop
+
+    def _opfn(n):
+        o = getattr(operators, n, None) or getattr(_pyop, n, None)
+        return o if callable(o) and getattr(o, "__name__", None) == n else None
+
+    opnames = sorted(n for n in opnames if _opfn(n) is not None)
     generic = sorted(o.__name__ for o in compiler.OPERATORS)
     for o in opnames:
         for p in POSITIONS:
@@ -376,19 +400,6 @@ def obl_source(f):
     return "\n".join(L) + "\n"
 
 
-def translate(repo, outdir):
-    from vlib import implcall
-
-    f = implcall.call("specs.c22", "facts")
-    p = os.path.join(outdir, "Gen_C22.v")
-    with open(p, "w") as fh:
-        fh.write(gen_source(f))
-    p2 = os.path.join(outdir, "Gen_C22_obl.v")
-    with open(p2, "w") as fh:
-        fh.write(obl_source(f))
-    return [p, p2]
-
-
 # ------------------------------------------------------------------ facts on the orchestrator side
 _ORCH = {"f": None, "tried": False}
 
@@ -400,20 +411,21 @@ def _ofacts():
         try:
             from vlib import implcall
 
-            _ORCH["f"] = implcall.call("specs.c22", "facts")
+            _ORCH["f"] = implcall.call("specs.c22", "facts", "fresh")
         except Exception:
             _ORCH["f"] = None
     return _ORCH["f"]
 
 
-_translate_inner = translate
-
-
-def translate(repo, outdir):  # noqa: F811  (keeps the facts for gen_cases)
+def translate(repo, outdir):
     from vlib import implcall
 
-    f = implcall.call("specs.c22", "facts")
+    f = implcall.call("specs.c22", "facts", "fresh")
     _ORCH["f"], _ORCH["tried"] = f, True
+    import json
+
+    with open(os.path.join(outdir, "facts.json"), "w") as fh:
+        json.dump(f, fh)
     p = os.path.join(outdir, "Gen_C22.v")
     with open(p, "w") as fh:
         fh.write(gen_source(f))
@@ -439,8 +451,8 @@ DKEYS = [d[0] for d in DIALECTS]
 BENIGN_BIN = ["add", "sub", "mul", "eq", "ne", "lt", "le", "gt", "ge", "and_", "or_", "concat_op", "like_op", "not_like_op",
               "is_", "is_not", "ilike_op", "bitwise_and_op", "bitwise_or_op", "is_distinct_from", "mod", "startswith_op"]
 # operators with neither a method nor an OPERATORS entry: documented error from visit_binary, KeyError from visit_unary
-NOWHERE_OPS = ["matmul", "lshift", "rshift", "pow", "div", "contains", "filter_op", "null_op"]
-UNARY_LISTED = [("neg", 0), ("inv", 0), ("distinct_op", 0), ("bitwise_not_op", 0), ("desc_op", 1), ("asc_op", 1),
+NOWHERE_OPS = ["matmul", "lshift", "rshift", "pow", "contains", "filter_op", "null_op"]
+UNARY_LISTED = [("neg", 0), ("inv", 0), ("distinct_op", 0), ("desc_op", 1), ("asc_op", 1),
                 ("nulls_first_op", 1), ("nulls_last_op", 1)]
 # (recipe name, qualified class, constructor args, visit name) - types whose bodies are benign with these arguments
 TYPES = [
@@ -513,13 +525,16 @@ def _gen_expr(rng, cx, d, st):
         return ["cbin", vn, a, b], [2, cx.oid["custom_op"], cust, ma, mb]
     if k < 0.64:
         a, ma = _gen_expr(rng, cx, d - 1, st)
+        while a[0] == "clist":  # a Grouping(ClauseList) directly under a unary trips _wraps_unnamed_column's own assert
+            a, ma = _gen_expr(rng, cx, d - 1, st)
         r = rng.random()
         if r < 0.12 and st["mode"] in (None, "internal"):
             st["mode"] = "internal"
             op = rng.choice(NOWHERE_OPS + ["like_op", "between_op"])
             ismod = rng.random() < 0.3
             return ["un", None if ismod else op, op if ismod else None, a], [3, -1 if ismod else cx.oid[op], cx.oid[op] if ismod else -1, -1, ma]
-        if r < 0.17:
+        if r < 0.17 and st["mode"] in (None, "cerr"):
+            st["mode"] = "cerr"
             o, m = rng.choice([(None, None), ("neg", "desc_op")])
             return ["un", o, m, a], [3, -1 if o is None else cx.oid[o], -1 if m is None else cx.oid[m], -1, ma]
         if r < 0.25:
@@ -542,7 +557,7 @@ def _gen_expr(rng, cx, d, st):
         if rng.random() < 0.12 and st["mode"] in (None, "internal"):
             st["mode"] = "internal"
             op = rng.choice(NOWHERE_OPS + ["like_op", "between_op"])
-        return ["clist", op, [x[0] for x in kids]], [5, -1 if op is None else cx.oid[op], [x[1] for x in kids]]
+        return ["clist", op, [x[0] for x in kids]], [0, 0, cx.n("visit_grouping"), [[5, -1 if op is None else cx.oid[op], [x[1] for x in kids]]]]
     if k < 0.84:
         a, ma = _gen_expr(rng, cx, d - 1, st)
         return ["label", a], [0, 0, cx.n("visit_label"), [ma]]
@@ -563,7 +578,9 @@ def _gen_expr(rng, cx, d, st):
         a, ma = _gen_expr(rng, cx, d - 1, st)
         t, mt = _gen_type(rng, cx)
         which = rng.choice(["cast", "cast", "try_cast"])
-        return [which, a, t], [0, 0, cx.n("visit_" + which), [ma, [0, 0, cx.n("visit_typeclause"), [mt]]]]
+        tc = [0, 0, cx.n("visit_typeclause"), [mt]]
+        # SQLCompiler.visit_cast renders the typeclause first, MSSQLCompiler.visit_try_cast the clause first
+        return [which, a, t], [0, 0, cx.n("visit_" + which), [tc, ma] if which == "cast" else [ma, tc]]
     return ["col", 0], [0, 0, cx.n("visit_column"), []]
 
 
@@ -588,7 +605,7 @@ def _uses_cast_on_mysql(c):
     return c["dialect"] in ("mysql", "mariadb") and '"cast"' in json.dumps(c["src"])
 
 
-INAMES = [[0], [3, "ix_a"], [3, "Some Name"], [3, "x" * 70]]
+INAMES = [[0], [3, "ix_a"], [3, "Some Name"], [3, "x" * 25]]
 
 
 def gen_cases(rng, tier):
@@ -612,12 +629,14 @@ def gen_cases(rng, tier):
                 if (ck == 2) == ist:
                     pairs.append((vn, qs, c, ck, dq))
         if not thorough:
-            pairs = rng.sample(pairs, min(len(pairs), 900))
+            pairs = rng.sample(pairs, min(len(pairs), 600))
         for vn, qs, c, ck, dq in pairs:
             cases.append({"in": [0, c, cx.nid[vn]], "kind": "elem", "cls": rng.choice(qs), "dialect": dq, "ck": ck})
         # --- op: second/third level dispatch through the real visit_binary / visit_unary / ... of a compiler
         sqlc = sorted((c, dq) for (c, ck), dq in used.items() if ck == 0)
         for o in f["ops"]:
+            if o == "custom_op":
+                continue  # has its own cases below (third-level dispatch on visit_name)
             for pos in range(5):
                 chosen = sqlc if thorough else rng.sample(sqlc, 2)
                 for c, dq in chosen:
@@ -630,7 +649,7 @@ def gen_cases(rng, tier):
                     cases.append({"in": [1, c, pos, cx.oid["custom_op"], 1, cust], "kind": "op", "op": "custom_op",
                                   "visit_name": vn, "dialect": dq})
         # --- tree
-        n = 6000 if thorough else 900
+        n = 6000 if thorough else 700
         k = 0
         while k < n:
             c = _gen_tree_case(rng, cx)
@@ -748,7 +767,9 @@ def classify(e):
     if isinstance(e, exc.SQLAlchemyError) or type(e).__name__ in DOCUMENTED:
         return 2
     if isinstance(e, NotImplementedError):
-        return 8
+        # "This backend does not support ...": a deliberate, worded refusal (neither in the property's documented list
+        # nor in its internal list; the oracle must not be stricter than the text).  A bare one is an abstract-method leak.
+        return 2 if str(e).strip() else 8
     for code, t in ((3, AttributeError), (4, KeyError), (5, IndexError), (6, TypeError), (7, AssertionError)):
         if isinstance(e, t):
             return code
@@ -823,7 +844,7 @@ def _impl_op(c):
 
     for n in dir(type(comp)):
         if n.startswith("visit_") and n.endswith(_OPSUFFIX) and n not in _PASS and n not in (
-            "visit_binary", "visit_unary"):
+            "visit_binary", "visit_unary", "visit_expression_clauselist", "visit_clauselist"):
             setattr(comp, n, rec(n))
     for g in ("_generate_generic_binary", "_generate_generic_unary_operator", "_generate_generic_unary_modifier",
               "_generate_delimited_list"):
@@ -834,15 +855,7 @@ def _impl_op(c):
     elif c["op"] == "custom_op":
         op = operators.custom_op("~~", visit_name=c.get("visit_name"))
     else:
-        op = getattr(operators, c["op"], None)
-        if op is None:  # python operator module names used as keys of operator_lookup (lshift, matmul, ...)
-            import operator as pyop
-
-            op = getattr(pyop, c["op"], None) or getattr(operators, c["op"] + "_", None)
-        if op is None:
-            from sqlalchemy.sql import default_comparator  # noqa
-
-            raise AssertionError("cannot resolve operator %s" % c["op"])
+        op = _op(c["op"])
     a, b = column("a"), column("b")
     try:
         if pos == 0:
@@ -901,7 +914,7 @@ def _build(r):
         kids = [_build(x) for x in r[2]]
         return elements.ExpressionClauseList._construct_for_list(_op(r[1]), kids[0].type, *kids, group=False)
     if k == "clist":
-        return elements.ClauseList(*[_build(x) for x in r[2]], operator=_op(r[1]), group_contents=False)
+        return elements.Grouping(elements.ClauseList(*[_build(x) for x in r[2]], operator=_op(r[1]), group_contents=False))
     if k == "label":
         return _build(r[1]).label("l")
     if k == "func":
@@ -919,7 +932,7 @@ def _build(r):
     if k == "try_cast":
         return try_cast(_build(r[1]), _mk_type(r[2]))
     if k == "select":
-        return select(*[_build(x).label("r%d" % i) if x[0] in ("clist",) else _build(x) for i, x in enumerate(r[1])])
+        return select(*[_build(x) for x in r[1]])
     if k == "create_table":
         from sqlalchemy import Column, MetaData, Table
         from sqlalchemy.schema import CreateTable
@@ -944,8 +957,8 @@ def _op(name):
 
 def _impl_tree(c):
     d = _dialect_key(c["dialect"])
+    e = _build(c["src"])
     try:
-        e = _build(c["src"])
         e.compile(dialect=d)
     except Exception as ex:
         code = classify(ex)
@@ -1056,11 +1069,11 @@ def match_finding(c, what):
     k = c.get("kind", "")
     if k.startswith("witness:") or k.startswith("corpus:"):
         k = c.get("family", "fuzz")
-    if k == "op" and c["in"][2] in (1, 2, 4) and "KeyError" in what:
+    if k == "op" and c["in"][2] in (1, 2, 4) and "KeyError" in what and not _library_places(c["op"], c["in"][2]):
         return "C22-unary-or-clauselist-operator-keyerror"
     if k == "tree" and "KeyError" in what and _has_unlisted_unary(c["src"]):
         return "C22-unary-or-clauselist-operator-keyerror"
-    if k == "index" and "AssertionError" in what and c["in"][3][0] == 0:
+    if k == "index" and "AssertionError" in what and c["in"][3][0] == 0 and _index_test_known_missing(c["dialect"], c["in"][2]):
         return "C22-unnamed-index-assertionerror"
     if k == "pickle" and _pickle_after_operate(c["in"][2]) and c["in"][1] in (0, 1, 2):
         return "C22-pickled-comparator-attributeerror"
@@ -1069,6 +1082,30 @@ def match_finding(c, what):
 
         return c22_fuzz.match_finding(c, what)
     return None
+
+
+# operators the library itself places in a unary / clauselist position (at the time the finding was recorded): a
+# KeyError for one of THESE is not the known finding, it is a new defect (e.g. a dropped OPERATORS entry)
+_LIB_UNARY = {("all_op", 1), ("any_op", 1), ("asc_op", 2), ("bitwise_not_op", 1), ("custom_op", 1), ("custom_op", 2), ("desc_op", 2),
+              ("distinct_op", 1), ("exists", 1), ("inv", 1), ("is_false", 1), ("is_true", 1), ("neg", 1), ("nulls_first_op", 2),
+              ("nulls_last_op", 2)}
+_LIB_CLIST = {"comma_op"}
+
+
+def _library_places(op, pos):
+    if pos == 4:
+        return op is None or op in _LIB_CLIST
+    return (op, pos) in _LIB_UNARY
+
+
+def _index_test_known_missing(dialect_qn, which):
+    """the DDL compilers whose visit_create_index (which=0) / visit_drop_index (1) lacked the index.name test when the
+    finding was recorded; the base compiler (default dialect) has both tests: losing them there is a new defect"""
+    fam = dialect_qn.split(".")[2] if dialect_qn.startswith("sqlalchemy.dialects.") else "default"
+    if "_mariadb_shim" in dialect_qn:
+        fam = "default"
+    missing = {0: {"sqlite", "postgresql", "mysql", "mssql", "oracle"}, 1: {"postgresql", "mysql", "mssql"}}
+    return fam in missing[which]
 
 
 def _pickle_after_operate(h):
